@@ -15,11 +15,13 @@ var (
 	c15SrcNames  = []string{"s1", "s2", "dir/s3", "s 4", "s.5", "empty"}
 	c15DstNames  = []string{"out", "dir/out.bin", "a b c", "x..y", ".dot", "dir.d/sub dir/o", "ä/ö", "deep/er/est/out"}
 	c15CopyNames = []string{"copy", "dir/copy", "x/o/y", "o/o/o", "a/o/b/o/c", "a b", "a..b", "ü/ñ.txt", "p/o", "weird/o/.x y"}
+	// parts of different sizes that the append scenario adds to an object and to its copy
+	c15ChunkNames = []string{"chunk-s", "chunk-m", "chunk-l"}
 )
 
 // C15: compose concatenates its sources in order; copy clones an object.
 func runC15(run *common.Run) {
-	run.Rule = "case = one program in ONE pair of fresh buckets: 2-5 source objects (one empty, some with rich metadata), a baseline dump, then 3-8 compose / copy requests that re-use the same sources (the same leading source over and over), take earlier composed or copied objects as later sources and write destinations that are among the sources, with a whole-store dump after EVERY request (so an earlier object changing under a later request is seen). Compose: 0..33 sources (boundary counts 0,1,2,31,32,33 over-weighted) drawn with repeats from the pool, destination among the sources, a missing source at a random position, per-source generation conditions, destination names with '/', spaces, dots, unicode, pre-existing destination, destination contentType / user metadata. Copy: same and cross bucket, destination names containing '/', '/o/', spaces, dots, unicode, missing source, overwrite of an existing destination. Oracle: destination content == concatenation in request order, destination metadata from the request, every source byte-, metadata-, generation- and metageneration-identical to before, >32 => 400, missing => 404 and nothing changed, copy response carries the resource with totalBytesRewritten == objectSize == len(content) and the source's content, MD5 and user-settable metadata. Non-trivial = the program had >= 2 successful requests, a successful compose of >= 2 sources and a step that used an earlier result as a source; distinct by hash of the step log x store."
+	run.Rule = "case = one program in ONE pair of fresh buckets: 2-5 source objects (one empty, some with rich metadata), a baseline dump, then 3-8 compose / copy requests that re-use the same sources (the same leading source over and over), take earlier composed or copied objects as later sources and write destinations that are among the sources, with a whole-store dump after EVERY request (so an earlier object changing under a later request is seen). One case in three (plus a random fifth) contains the append scenario at a random position: a live object X is copied to Y (same bucket, one in four across buckets; half of these copies with a full resource as request body), then X = compose[X, parts] and Y = compose[Y, other parts] are issued 1-3 rounds in either order without any upload in between, the parts being three objects of 1-8, 30-200 and 600-5000 bytes; dump after every request. Compose: 0..33 sources (boundary counts 0,1,2,31,32,33 over-weighted) drawn with repeats from the pool, destination among the sources, a missing source at a random position, per-source generation conditions, destination names with '/', spaces, dots, unicode, pre-existing destination, destination contentType / user metadata. Copy: same and cross bucket, one in three with a request body that is a full destination resource (stale / made-up output-only fields, the source's user-settable fields), destination names containing '/', '/o/', spaces, dots, unicode, missing source, overwrite of an existing destination. Oracle: destination content == concatenation in request order, destination metadata from the request, every source byte-, metadata-, generation- and metageneration-identical to before, >32 => 400, missing => 404 and nothing changed, copy response carries the resource with totalBytesRewritten == objectSize == len(content) and the source's content, MD5 and user-settable metadata. Non-trivial = the program had >= 2 successful requests, a successful compose of >= 2 sources and a step that used an earlier result as a source; distinct by hash of the step log x store."
 	run.Assumptions = []string{
 		"0 sources: a 4xx (nothing changed) or an empty object are both accepted (the statement says 1 to 32)",
 		"a composite object need not carry an md5Hash",
@@ -110,6 +112,7 @@ func c15Case(run *common.Run, srv *drive.Server, idx int) {
 	dstCands = dstCands[:5]
 	for _, b := range []string{b1, b2} {
 		u := append([]string{"decoy", "missing-source"}, pool...)
+		u = append(u, c15ChunkNames...)
 		for _, dn := range dstCands {
 			u = append(u, dn)
 			for i, c := range dn {
@@ -136,8 +139,110 @@ func c15Case(run *common.Run, srv *drive.Server, idx int) {
 	}
 	composed := map[string]bool{} // names in b1 that are results of an earlier compose / copy of this case
 	okOps, reused, bigCompose, slashOrCross := 0, 0, 0, 0
+	checked := func(msg string) bool {
+		if msg == "" {
+			msg = e.verify()
+			if msg != "" {
+				msg = fmt.Sprintf("after step %d: %s", len(e.steps)-1, msg)
+			}
+		}
+		if msg != "" {
+			fail(msg)
+			return false
+		}
+		return true
+	}
+	// The append scenario: an object X is copied to Y (same or other bucket), then both the original and the copy are
+	// extended in place - compose X = [X, parts...], compose Y = [Y, other parts...], again and again, in either order -
+	// without being uploaded again in between. Parts have very different sizes. The dump after every request shows
+	// whether extending one of them reached the other (or a part). Returns false after a violation.
+	appendScenario := func() bool {
+		live := e.liveIn(b1)
+		if len(live) == 0 {
+			return true
+		}
+		x := common.Pick(r, live)
+		yb := b1
+		if r.Chance(1, 4) {
+			yb = b2
+		}
+		y, ok := "", false
+		for tries := 0; tries < 20 && !ok; tries++ {
+			if y, ok = pickName(yb, dstCands); ok && yb == b1 && y == x {
+				ok = false
+			}
+		}
+		if !ok {
+			return true
+		}
+		run.Count("append_scenarios", 1)
+		sizes := map[string][2]int{"chunk-s": {1, 8}, "chunk-m": {30, 200}, "chunk-l": {600, 5000}}
+		for _, cn := range c15ChunkNames {
+			if e.m.Get(b1, cn) == nil {
+				u := &uploadSpec{Proto: common.Pick(r, []string{"media", "multipart"}), Bucket: b1, Name: cn, Body: r.Bytes(r.Range(sizes[cn][0], sizes[cn][1])), CT: "application/octet-stream", CTMode: "both", Boundary: genBoundary(r)}
+				if !checked(e.upload(u, r)) {
+					return false
+				}
+			}
+			if yb != b1 && e.m.Get(yb, cn) == nil {
+				if !checked(e.copyObj(b1, cn, yb, cn)) {
+					return false
+				}
+			}
+		}
+		if r.Bool() {
+			if !checked(e.copyObj(b1, x, yb, y)) {
+				return false
+			}
+		} else if !checked(e.copyObjBody(b1, x, yb, y, genCopyBody(r, e, b1, x, yb, y))) {
+			return false
+		}
+		if yb == b1 {
+			composed[y] = true
+		}
+		type tgt struct{ b, n string }
+		for round, rounds := 0, r.Range(1, 3); round < rounds; round++ {
+			order := []tgt{{b1, x}, {yb, y}}
+			if r.Bool() {
+				order[0], order[1] = order[1], order[0]
+			}
+			for _, t := range order {
+				spec := &composeSpec{Bucket: t.b, Dst: t.n, Srcs: []composeSrc{{Name: t.n}}}
+				for i, k := 0, r.Range(1, 2); i < k; i++ {
+					spec.Srcs = append(spec.Srcs, composeSrc{Name: common.Pick(r, c15ChunkNames)})
+				}
+				if r.Chance(1, 3) {
+					spec.CT = common.Pick(r, contentTypes)
+				}
+				before := e.stats["composes_ok"]
+				if !checked(e.compose(spec)) {
+					return false
+				}
+				if e.stats["composes_ok"] > before {
+					okOps++
+					bigCompose++
+					reused++
+					run.Count("self_append_composes_ok", 1)
+					if t.b == b1 {
+						composed[t.n] = true
+					}
+				}
+			}
+		}
+		return true
+	}
 	nsteps := r.Range(3, 8)
+	scenarioAt := -1
+	if idx%3 == 0 || r.Chance(1, 5) {
+		scenarioAt = r.Intn(nsteps)
+	}
 	for st := 0; st < nsteps; st++ {
+		if st == scenarioAt {
+			if !appendScenario() {
+				return
+			}
+			continue
+		}
 		live := e.liveIn(b1)
 		if r.Chance(6, 10) {
 			// ---- compose in b1: sources from every live name, earlier results included
@@ -239,7 +344,11 @@ func c15Case(run *common.Run, srv *drive.Server, idx int) {
 				continue
 			}
 			before := e.stats["copies_ok"]
-			if msg := e.copyObj(sb, sn, db, dn); msg != "" {
+			var body map[string]any
+			if r.Chance(1, 3) {
+				body = genCopyBody(r, e, sb, sn, db, dn) // full destination resource, output-only fields stale or made up
+			}
+			if msg := e.copyObjBody(sb, sn, db, dn, body); msg != "" {
 				fail(msg)
 				return
 			}
